@@ -151,7 +151,7 @@ DIR_STRATA = ["sphere", "sphere", "near_axis", "near_tangent", "axis_plane"]
 
 def workload(ctx):
     rng = ctx.rng(1)
-    for i in range(ctx.n(3000, 40000)):
+    for i in range(ctx.n(3000, 120000)):
         ts = TILT_STRATA[i % len(TILT_STRATA)]
         ds = DIR_STRATA[(i // len(TILT_STRATA)) % len(DIR_STRATA)]
         chi = 0.0 if ts in ("both0", "wedge_only") else float(rng.uniform(-0.5, 0.5))
@@ -184,7 +184,7 @@ def workload(ctx):
         yield "solve", {"dir": d.tolist(), "twoth": twoth, "chi": chi, "wedge": wedge, "tilts": ts, "dirs": ds,
                         "scale": float(10 ** rng.uniform(-3, 3))}
     rng = ctx.rng(2)
-    for i in range(ctx.n(300, 4000)):
+    for i in range(ctx.n(300, 12000)):
         c, cs = gen.cell(rng, gen.CELL_STRATA[i % len(gen.CELL_STRATA)])
         yield "tth", {"cell": c, "hkl": gen.hkl(rng, 6), "q": [float(x) for x in rng.normal(size=4)],
                       "wavelength": float(rng.uniform(0.05, 0.5))}
